@@ -17,7 +17,7 @@ real trace.
 Out of the model (the property is labelled partial for these): chunked messages, the durable producer
 queue, controller restart / relocation, sequence-number exhaustion at MaxInt64.
 -/
-import GoaktVerif.Lemmas.C42.World
+import GoaktVerif.Lemmas.C42.Progress
 
 namespace GoaktVerif.C42
 open GoaktVerif.Model.C42 GoaktVerif.Spec.C42
@@ -52,6 +52,60 @@ theorem C42_consumer_never_fails (window interval : Nat) (dc : Bool) (ss : List 
     | nil => intro w m h; exact h.cl.nf
     | cons s ss ih => intro w m h; simp only [World.run]; exact ih _ _ (h.step s)
   exact this ss _ _ (Inv.init window interval dc)
+
+/-- the producer controller never takes its terminal failure path either (no "illegal demand range", no
+    "unexpected Produced / StoredAck"): whatever the faults, a consumer controller with a valid window only
+    ever sends legal grants, and an endpoint that keeps the documented contract (FIFO mailbox, re-answer the
+    same token with the same Produced, acknowledge every Stored) never confuses the handshake -/
+theorem C42_producer_never_fails (window interval : Nat) (dc : Bool) (hw : window ≤ maxWindow) (ss : List Step) :
+    ((World.init window interval dc).run ss).1.p.failed = false := by
+  obtain ⟨_, _, h2⟩ := run_inv _ _ ss (Inv.init window interval dc) (Inv2.init window interval dc hw)
+  exact h2.u.nf
+
+/-- non-vacuity: the default window satisfies the hypothesis -/
+example : (1000 : Nat) ≤ maxWindow := by decide
+
+/-- Progress half of C42, NOT temporal ("eventually" under fair loss is outside what a safety proof can
+    say; named gap): from every reachable world — any window the controller accepts, any script — the fixed
+    fault-free continuation `recover` (two consumer-controller ticks = the silence rule, then the newest
+    RegisterConsumer, RegistrationAck and timeout Request are delivered) leaves the producer controller
+    alive, makes it adopt the consumer controller's confirmation watermark (every message the endpoint
+    confirmed is now confirmed at the producer: its unconfirmed buffer starts right after it), and puts a
+    SequencedMessage for the oldest still-unconfirmed message back in flight.  So no reachable state with an
+    unconfirmed message is stuck: the tick/registration/timeout-request rules that re-send it are enabled. -/
+def C42_progress : Prop :=
+  ∀ (window interval : Nat) (dc : Bool), 1 ≤ window → window ≤ maxWindow → ∀ ss : List Step,
+    let w := ((World.init window interval dc).run ss).1
+    (recover w).p.failed = false ∧ (recover w).p.confirmedSeq = (recover w).c.confirmedSeq ∧
+    ∀ mm, (recover w).p.unconfirmed.head? = some mm →
+      PMsg.sequenced (recover w).p.session mm.id mm.seq mm.payload ∈ (recover w).netPC
+
+theorem C42_progress_holds : C42_progress := by
+  intro window interval dc h1 h2 ss
+  obtain ⟨m, i, j, k⟩ := run_inv3 _ _ ss (Inv.init window interval dc) (Inv2.init window interval dc h2) (Inv3.init window interval dc h1)
+  exact recover_progress _ m i j k
+
+/-- `recover` is an ordinary script of five steps -/
+theorem C42_recover_is_script (w : World) : ∃ ss : List Step, ss.length = 5 ∧ (w.run ss).1 = recover w :=
+  recover_is_script w
+
+/-- C42 as far as the model carries it (volatile, unchunked, no restart): safety for every fault schedule,
+    neither controller ever fails, and the non-temporal progress statement -/
+def C42_full : Prop :=
+  C42_safety ∧
+  (∀ (window interval : Nat) (dc : Bool), window ≤ maxWindow → ∀ ss : List Step,
+    ((World.init window interval dc).run ss).1.p.failed = false ∧ ((World.init window interval dc).run ss).1.c.failed = false) ∧
+  C42_progress
+
+theorem C42_holds : C42_full :=
+  ⟨C42_safety_holds,
+   fun window interval dc hw ss => ⟨C42_producer_never_fails window interval dc hw ss, C42_consumer_never_fails window interval dc ss⟩,
+   C42_progress_holds⟩
+
+/-- TEST (evaluated): after a lost SequencedMessage, `recover` puts it back in flight -/
+example :
+    let w := ((World.init 3 1 false).run [.deliverCP 0, .deliverPC 0, .deliverCP 0, .userP, .userP, .dropPC 0]).1
+    w.netPC = [] ∧ (recover w).netPC.contains (.sequenced 1 1 1 (payloadOf 1)) = true := by decide
 
 /-- a clean run: registration, demand, three messages produced, delivered and confirmed, then idle ticks -/
 def cleanScript : List Step :=
